@@ -291,6 +291,7 @@ pub fn script(kind_arg: &str, seed: u64, count: usize) -> Vec<J> {
         let d = g.doc(depth, 4);
         let t = value_to_tree(&d);
         let mut line = match kind {
+            "rand" => json!({"op":"rand_value","a":{}}),
             "codec" => {
                 if n % 2 == 0 { json!({"op":"roundtrip","d":[t],"a":{}}) } else { json!({"op":"to_vec","d":[t],"a":{"pre":pre_of(&mut g)}}) }
             }
